@@ -134,27 +134,35 @@ func hiddenWalkOK(fn *ssa.Function, start ssa.Value, depth int) (bool, string) {
 				why = "the loop variable is not advanced with UnwrapOnce of itself"
 				continue
 			}
-			// leaves only on nil
+			// leaves only on nil: every exit edge of the loop is the branch of a nil test of the loop variable (test
+			// before the body) or of its successor UnwrapOnce(loop variable) (test after the body: for { …; err =
+			// UnwrapOnce(err); if err == nil { break } })
+			stepVals := map[ssa.Value]bool{ssa.Value(phi): true}
+			for i, e := range phi.Edges {
+				if l.Body[l.Header.Preds[i]] {
+					stepVals[identity(e)] = true
+				}
+			}
 			exitsOK := true
 			for b := range l.Body {
-				for _, s := range b.Succs {
-					if l.Body[s] {
+				for _, sc := range b.Succs {
+					if l.Body[sc] {
 						continue
 					}
-					ifi, isIf := b.Instrs[len(b.Instrs)-1].(*ssa.If)
-					bin, isBin := (ssa.Value)(nil), false
-					if isIf {
-						var bo *ssa.BinOp
-						bo, isBin = ifi.Cond.(*ssa.BinOp)
-						if isBin {
-							bin = bo
-							if !((bo.Op == token.NEQ || bo.Op == token.EQL) && (identity(bo.X) == ssa.Value(phi) && sx.IsNil(bo.Y) || identity(bo.Y) == ssa.Value(phi) && sx.IsNil(bo.X))) {
-								isBin = false
+					okExit := false
+					if ifi, isIf := b.Instrs[len(b.Instrs)-1].(*ssa.If); isIf {
+						if bo, isBin := ifi.Cond.(*ssa.BinOp); isBin && (bo.Op == token.NEQ || bo.Op == token.EQL) {
+							if (stepVals[identity(bo.X)] && sx.IsNil(bo.Y)) || (stepVals[identity(bo.Y)] && sx.IsNil(bo.X)) {
+								// the exit edge is the "is nil" edge
+								nilEdge := 0
+								if bo.Op == token.NEQ {
+									nilEdge = 1
+								}
+								okExit = b.Succs[nilEdge] == sc
 							}
 						}
 					}
-					_ = bin
-					if b != l.Header || !isIf || !isBin {
+					if !okExit {
 						exitsOK = false
 					}
 				}
